@@ -44,6 +44,7 @@ class Tx:
         self.ops = []                     # (fields, impl result) of every data operation that did not error
         self.finished = False
         self.own = {}                     # key -> value / None of the transaction's own successful writes
+        self.under = None                 # verdict of the underlying commit while a cache commit window is open
 
     def wrote(self):
         return any(f[0] in ("put", "del") for f, _ in self.ops)
@@ -133,6 +134,7 @@ def check_case(ops, impls, sig_prefix="", raft=False):
     store = {}
     txs = {}
     layer = "?"
+    win_pre = None     # inside a commit window after the underlying commit: the store just before it
 
     def fail(what, sig, **kw):
         d = {"what": what, "signature": sig_prefix + sig}
@@ -166,10 +168,42 @@ def check_case(ops, impls, sig_prefix="", raft=False):
                     else:
                         store[k] = v[2:]
             continue
-        if op in ("commit", "rollback"):
+        if op == "cstart":
+            continue        # the commit window of the cache layer opens (see `cunder`, `hget`)
+        if op == "hget":
+            # a concurrent plain reader inside a commit window. The commit call has been invoked and has not
+            # returned: the read may be ordered before or after it, so it must return the value of the store just
+            # before the underlying commit or just after it (before `cunder` the two coincide).
+            ok_vals = {show_val(store.get(f[1]))}
+            if win_pre is not None:
+                ok_vals.add(show_val(win_pre.get(f[1])))
+            if impl not in ok_vals:
+                fail("reader inside the commit window got %s for %s, neither the pre- nor the post-commit value %r"
+                     % (impl, f[1], sorted(ok_vals)), "window-read-neither-old-nor-new")
+            continue
+        if op == "cohere":
+            if "!" in impl:
+                bad = [k for k, c in zip(f[1:], impl) if c == "!"]
+                fail("at quiescence a read through the cache differs from the backend below for %r" % bad,
+                     "cache-stale-after-commit")
+            continue
+        if op == "commit" and f[1] in txs and getattr(txs[f[1]], "under", None) is not None:
+            # closing line of a commit window: the underlying commit was judged at `cunder`
+            tx = txs[f[1]]
+            if impl != tx.under:
+                fail("cache-level commit returned %s, the underlying commit %s" % (impl, tx.under), "cache-commit-verdict-differs")
+            tx.under = None
+            win_pre = None
+            continue
+        if op in ("commit", "rollback", "cunder"):
             tx = txs.get(f[1])
             if tx is None:
                 continue
+            if op == "cunder":
+                # the underlying commit inside a commit window: this is the commit point
+                tx.under = impl
+                win_pre = dict(store)
+                op = "commit"
             if tx.finished:
                 if not impl.startswith("err:"):
                     fail("%s of a finished transaction succeeded" % op, "finished-accepts-" + op)
@@ -268,8 +302,14 @@ class TxnStream(Stream):
     def case_predicate(self, ops, impls):
         return check_case(ops, impls)
 
+    def predicate(self, op, impl):
+        if op.startswith("cohere\t") and "!" in impl:
+            return {"what": "cache coherent at quiescence fails: " + op.replace("\t", " ") + " => " + impl,
+                    "signature": "cache-stale-after-commit"}
+        return Stream.predicate(self, op, impl)
+
     def nontrivial(self, op, impl):
-        return op.split("\t", 1)[0] not in ("layer", "dump") and impl not in ("bad-op",)
+        return op.split("\t", 1)[0] not in ("layer", "dump", "cstart") and impl not in ("bad-op",)
 
 
 class InmemTxn(TxnStream):
@@ -282,7 +322,11 @@ class InmemTxn(TxnStream):
             "behind cache+LogicalStorage+StorageView: 3-6 keys of a 2-level namespace, 1-4 concurrently open transactions "
             "(15% read-only) plus plain readers/writers, op mix get/put/delete/list/listPage(after in children, missing, '.', "
             "'..'; limit in -1,0,1,2,3,10), random interleaving and commit order, use-after-finish and writes on read-only "
-            "transactions; the parent store is dumped after every commit/rollback; non-trivial = every line except layer/dump; "
+            "transactions; the parent store is dumped after every commit/rollback; behind the cache half of the commits run as "
+            "a COMMIT WINDOW: a hook wrapper between inmem and the cache calls back at the start of the underlying Commit and "
+            "right after it returned, where 0-3 concurrent plain cache.Get (70% keys of the write set) run; after such a "
+            "commit every key is read through the cache and directly from the backend (cohere); the driver replays the "
+            "observed hook-point reads on the micro-step model; non-trivial = every line except layer/dump/cstart; "
             "distinct = distinct op line")
 
 
@@ -316,7 +360,10 @@ class C08(PropCheck):
                   "inmem_serializable (induction over every schedule), txn_sees_snapshot_plus_own_writes, txn_result_is_logged, "
                   "reads_own_writes, readonly_refuses_writes, finished_refuses_use - all full. cache layer (model CacheTxn): "
                   "cache_layer_transparent full (parent and per-transaction caches coherent with the layer below after every "
-                  "schedule); cache_finished_get_cex (F22). raft client-side verification records and single-node commit (model "
+                  "schedule); cache_commit_window_coherent full (Commit split into underlying commit + one eviction per modified key, "
+                  "any interleaving of concurrent plain readers between the micro-steps, any number of such windows in any "
+                  "schedule: coherent once each commit returned), cache_commit_window_refines_atomic, "
+                  "cache_commit_reversed_order_cex (model variant evict-then-commit leaves a stale entry); cache_finished_get_cex (F22). raft client-side verification records and single-node commit (model "
                   "RaftTxn): raft_verify_sound (read records cover every touched key and pin its content hash), "
                   "raft_commit_reads_current (every committed writer's reads are current, through the fast-path bypass, FSM not "
                   "lagging), raft_verify_sound_partial + raft_verify_absent_empty_cex (F23), raft_list_verify_cex (F8), "
